@@ -40,6 +40,9 @@ func runC05(c *ctx) {
 		"a.$substringBefore($$.b.c.$substringBefore(\"z\"))", "items ~> $map(function($v){$v.id}) ~> $sum()", "items.id ~> $sum() ~> $string()",
 		"[1,2,3] ~> $append(4) ~> $count()", "(items ~> |$|{\"z\": 1}|).z", "$ ~> |items|{\"k\": k + 1}|", "items^(k).id", "items{s: $count($)}",
 		"($f := function($x){$x + 1}; 3 ~> $f() ~> $f())", "$string(n) ~> $length()", "b.c ~> $uppercase() ~> $substring(1, 2)", "s.$split(\",\")",
+		// bindings made outside any block live in the environment of one evaluation only
+		"[$prev, $prev := n]", "[$p1, $p1 := a, $p1]", "$top := n", "$exists($e1) ? \"leaked\" : ($e1 := 1)",
+		"[$count($acc), $acc := $append($acc, n)]", "$string($s1) & ($s1 := a)", "[$f1 ? $f1() : 0, $f1 := function(){n}]",
 		"a.$length()", "b.c.$pad(8, \"-\")", "n.$string()", "n.$round()", "a.$contains(\"y\")", "items.s.$uppercase()", "items.($string(id) & s)",
 	}
 	others := []string{"b.c.$substringBefore(\"q\")", "$pad(\"zz\", 5)", "\"other\".$substringAfter(\"t\")", "items.s.$length()", "$string(items[0])", "n.$power(2)", "\"k\" ~> $uppercase()"}
@@ -236,6 +239,9 @@ func runC07(c *ctx) {
 			prog = "(" + arg + " ~> " + tr + ")." + []string{"items.k", "z", "items", "k", "b"}[r.intn(5)]
 		}
 		d := fullDoc(r, false)
+		if r.chance(1, 4) {
+			d = typedVariant(d)
+		}
 		before := valueSexp(d)
 		c.diffEval(prog, d, "transform")
 		if after := valueSexp(d); after != before {
@@ -257,9 +263,10 @@ func runC07(c *ctx) {
 		g.vars = nil
 		var prog string
 		if r.chance(1, 3) {
-			prog = "$" + []string{"sort", "reverse", "shuffle", "distinct", "merge", "spread", "keys"}[r.intn(7)] + "(" + []string{"items", "items.k", "items.s", "$", "[items, items]", "b"}[r.intn(6)] + ")"
+			prog = "$" + []string{"sort", "reverse", "shuffle", "distinct", "merge", "spread", "keys", "sort", "max", "sum"}[r.intn(10)] + "(" + []string{"items", "items.k", "items.s", "$", "[items, items]", "b", "nums", "strs", "nums", "strs"}[r.intn(10)] + ")"
 			if r.chance(1, 2) {
-				prog = []string{"$append(items, items)", "$zip(items, items.k)", "items^(>k, s)", "items^(id){s: $}", "items{$string(k): $}", "$sort(items, function($x, $y){$x.k > $y.k})", "$map(items, function($v){$v ~> |$|{\"q\": 1}|})"}[r.intn(7)]
+				prog = []string{"$append(items, items)", "$zip(items, items.k)", "items^(>k, s)", "items^(id){s: $}", "items{$string(k): $}", "$sort(items, function($x, $y){$x.k > $y.k})", "$map(items, function($v){$v ~> |$|{\"q\": 1}|})",
+					"nums^($)", "nums^(>$)", "strs^($)", "$append(nums, 1)", "$zip(nums, strs)", "$sort(nums, function($x, $y){$x > $y})", "$reverse($sort(nums))", "$distinct($append(nums, nums))"}[r.intn(15)]
 			}
 		} else {
 			prog = g.expr(2 + r.intn(2))
@@ -269,6 +276,20 @@ func runC07(c *ctx) {
 			continue
 		}
 		d := fullDoc(r, r.chance(1, 3))
+		if m, ok := d.(map[string]interface{}); ok {
+			// unsorted number and string arrays (in-place sorting or reversing would show)
+			nn := 2 + r.intn(5)
+			nums := make([]interface{}, nn)
+			strs := make([]interface{}, nn)
+			for j := range nums {
+				nums[j] = float64((j*7+3+r.intn(3))%11) - 3
+				strs[j] = string(rune('a' + (j*5+2+r.intn(2))%9))
+			}
+			m["nums"], m["strs"] = nums, strs
+		}
+		if r.chance(1, 4) {
+			d = typedVariant(d)
+		}
 		if r.chance(1, 4) {
 			// shared sub-structure: the same Go map reachable twice
 			if m, ok := d.(map[string]interface{}); ok {
@@ -306,6 +327,13 @@ var c09Seeds = []string{
 	"$$ ~> |**|{\"a\": $$}|", "items ~> |$|{\"self\": $}|", "$ ~> |items|{\"items\": 1}|", "$ ~> |items|{}, \"id\"|.items.id", "{\"a\": 1, \"a\": 2}", "{1: 2}", "{nothing: 2}",
 	"items{k: s}", "items{nothing: s}", "items{\"x\": s}{\"y\": 1}", "a[b][c][d]", "a.b.c[0][1][2]", "**.**.**", "*.*.*", "$$.$$.$$", "[[[[[[1]]]]]]", "[1..3][[1..2]]", "[1,2,3][[0,\"a\"]]",
 	"(function($f){$f($f)})(function($f){1})", "$map([1,2,3], $map)", "$map([1,2,3], $reduce)", "$reduce([1,2,3], $append(?, ?))", "($f := $f; $f)", "(($x := 1) + $x)",
+	// boundary corpus: callbacks declaring more parameters than the built-in passes, ranges whose span overflows int64,
+	// additive overflow (bare and nested), extreme operands
+	"$map([1,2,3], function($v,$i,$a,$extra){$v})", "$filter([1,2], function($a,$b,$c,$d){true})", "$single([1], function($a,$b,$c,$d,$e){true})",
+	"$map([\"a\"], $replace)", "$filter([\"a\"], $replace)", "$reduce([1,2,3], function($a,$b,$c,$d,$e){$a})", "$each({\"a\":1}, function($a,$b,$c,$d){$a})", "$sift({\"a\":1}, function($a,$b,$c,$d){true})",
+	"[0..1e19]", "[1..1e300]", "[-1e19..5]", "[-9e18..9e18]", "[1e19..1e19]", "[-1e300..-1e300]", "[big..big]", "[0..big]", "[-big..big]", "$count([0..1e19])",
+	"1e308 + 1e308", "-1e308 - 1.7e308", "{\"t\": 1e308 + 1e308}", "[1.7e308 + 1.7e308]", "$sum([1e308]) + 1e308", "big + big", "-big - big", "{\"total\": $sum([big]) + big}",
+	"1e308 * 10", "1e308 / 1e-10", "5e-324 / 10", "1e308 % 0", "-(1e308 + 1e308)", "big * big", "big / (1 / big)", "$power(big, 2)", "$abs(-big) + big", "$max([big]) + $max([big])",
 	"null.a", "true.a", "1.a", "\"s\".a", "null[0]", "null[true]", "-null", "-\"a\"", "-[]", "[1] & [2]", "{} & {}", "$sum & 1", "1 in $sum", "$sum in [$sum]", "null in null",
 }
 
@@ -344,7 +372,7 @@ func runTotality(c *ctx, prop string) {
 		}
 	}
 	seedDoc := map[string]interface{}{"x": []interface{}{10.0, 20.0, 30.0}, "idx": []interface{}{0.0, 2.0}, "arr": []interface{}{[]interface{}{1.0}},
-		"items": []interface{}{map[string]interface{}{"a": 2.0, "id": 0.0}, map[string]interface{}{"a": 1.0, "id": 1.0}}, "a": "xay", "b": map[string]interface{}{"c": 1.0}}
+		"items": []interface{}{map[string]interface{}{"a": 2.0, "id": 0.0}, map[string]interface{}{"a": 1.0, "id": 1.0}}, "a": "xay", "b": map[string]interface{}{"c": 1.0}, "big": 1e308}
 	for _, p := range c09Seeds {
 		one(p, seedDoc, "seed")
 		one(p, []interface{}{map[string]interface{}{"a": 2.0}, map[string]interface{}{"a": 1.0}}, "seed")
